@@ -55,28 +55,27 @@ class Machine:
         if s.done:
             return []
         evs = []
-        live = [i for i, w in enumerate(s.ref) if w is not None]
-        recent = s.wires[-3:] if len(s.wires) > 3 else s.wires
+        live = [i for i, w in enumerate(s.ref) if w is not None][-3:]
+        recent = s.wires[-2:]
         args = [["i", i] for i in live] + [["w", list(w)] for w in recent]
         for w in recent:
             evs.append(["track_wire", list(w)])
-        if len(recent) >= 2:
+        if len(recent) >= 2 and not s.ref:
             evs.append(["track_wires", [list(w) for w in recent[:2]]])
-        evs.append(["track_inputs"])
-        for i in range(len(s.ref) + 1):
+        if len(s.ref) <= 2:
+            evs.append(["track_inputs"])
+        for i in range(max(0, len(s.ref) - 2), len(s.ref) + 1):
             evs.append(["untrack_wire", i])  # freed and out-of-range indices included (IndexError expected)
-        for a in args:
-            evs.append(["add", "Noop", [a], False])
-            evs.append(["add", "Noop", [a], True])
+        for k, a in enumerate(args):
+            evs.append(["add", "Noop", [a], k == 0])
         for a, b in itertools.product(args, repeat=2):
-            evs.append(["add", "DivMod", [a, b], a[0] == "w"])
+            evs.append(["add", "DivMod", [a, b], a[0] == "w" and b[0] == "i"])
         if len(args) >= 2:
             evs.append(["extend", [["Noop", [args[0]]], ["DivMod", [args[0], args[1]]]]])
             evs.append(["extend", [["DivMod", [args[-1], args[0]]], ["Noop", [args[0]]]]])
-        bad_idx = len(s.ref)
-        evs.append(["add", "Noop", [["i", bad_idx]], False])
+        evs.append(["add", "Noop", [["i", len(s.ref)]], False])
         for k in (1, 2):
-            for combo in itertools.product(args, repeat=k):
+            for combo in itertools.product(args[:3], repeat=k):
                 evs.append(["set_indexed_outputs", list(combo)])
         evs.append(["set_tracked_outputs"])
         return permuted(evs, self.seed, "c15")
@@ -211,8 +210,8 @@ class Machine:
                 diff = [i for i in set(n1) | set(n2) if n1.get(i) != n2.get(i)]
                 what = "metadata" if all(i in n1 and i in n2 and n1[i][:3] == n2[i][:3] for i in diff) else "nodes"
                 fails.append((f"{kind}:{what}", f"HUGRs differ at nodes {diff}: tracked {[n1.get(i) for i in diff][:2]} explicit {[n2.get(i) for i in diff][:2]}"))
-        elif not s.done:
-            # incremental comparison of the two graphs (cheap: same construction order)
+        elif not s.done and kind in ("add", "extend"):
+            # incremental comparison of the two graphs (only these calls touch the HUGR)
             (n1, l1), (n2, l2) = dump(t.hugr), dump(d.hugr)
             if l1 != l2 or n1 != n2:
                 diff = [i for i in set(n1) | set(n2) if n1.get(i) != n2.get(i)]
